@@ -814,3 +814,91 @@ func init() {
 	registry["C06"].Meta.Rules["C06.10"] = "a record that ends exactly at the end of its block is read: in a reader loop `for cur < end`, a test of cur + size against the same bound lets equality pass (>), because cur == end is the loop's own regular end state; with >= the last record of a completely filled block (the last message of a version 1 object header) is dropped silently"
 	registry["C06"].Rules = append(registry["C06"].Rules, func(c *Ctx, r *Result) { exactFitRule(c, r, "C06.10", 2) })
 }
+
+// ---- the chunk placed into the array is the chunk the pipeline delivered (C06.11) ----
+//
+// A filtered chunk whose filters could not be undone (an optional filter this library does not implement) arrives with the
+// wrong length, and the placement step reports "chunk data truncated". That error is the only thing standing between
+// still-encoded bytes and the caller. The bytes handed to the placement step are therefore the buffer the file read filled or
+// the result of ApplyFilters, on every path - not a buffer made afterwards (padding the chunk to its nominal size makes the
+// length test pass and returns encoded bytes as values).
+func c06chunkOrigin(c *Ctx, r *Result, rule string) {
+	fn := c.FnOpt("core.readChunkedData")
+	if fn == nil {
+		r.Shortfall(c, rule, rule+": core.readChunkedData not found")
+		return
+	}
+	filled := map[ssa.Value]bool{}
+	for _, site := range callsIn(fn) {
+		com := site.Common()
+		name := ""
+		if com.IsInvoke() {
+			name = com.Method.Name()
+		} else if f := com.StaticCallee(); f != nil {
+			name = f.Name()
+		}
+		if name == "ReadAt" || name == "ReadFull" {
+			for _, a := range com.Args {
+				filled[stripSlices(a)] = true
+			}
+		}
+	}
+	n := 0
+	for _, site := range callsIn(fn) {
+		callee := site.Common().StaticCallee()
+		if callee == nil || !libPackage(fnPkgPath(callee)) {
+			continue
+		}
+		idx := -1
+		for i, p := range callee.Params {
+			if p.Name() == "chunkData" {
+				idx = i
+			}
+		}
+		if idx < 0 || c.Name(callee) == c.Name(fn) {
+			continue
+		}
+		if strings.Contains(callee.Name(), "ApplyFilters") {
+			continue
+		}
+		n++
+		bad := ""
+		seen := map[ssa.Value]bool{}
+		var walk func(v ssa.Value)
+		walk = func(v ssa.Value) {
+			if seen[v] {
+				return
+			}
+			seen[v] = true
+			switch x := v.(type) {
+			case *ssa.Phi:
+				for _, e := range x.Edges {
+					walk(e)
+				}
+				return
+			case *ssa.Extract:
+				if call, ok := x.Tuple.(*ssa.Call); ok && strings.Contains(c.calleeName(call), "ApplyFilters") {
+					return
+				}
+			case *ssa.Slice:
+				walk(x.X)
+				return
+			}
+			if filled[v] {
+				return
+			}
+			bad = v.String() + " at " + c.Pos(v.Pos())
+		}
+		walk(site.Common().Args[idx])
+		cons := c.Name(fn) + "#" + callee.Name() + "#chunk-is-what-was-read-or-decoded"
+		r.Check(bad == "", rule, cons, c.InstrPos(site.(ssa.Instruction)), "the bytes placed into the array are the buffer filled by the file read or the result of ApplyFilters on every path"+map[bool]string{true: "", false: " (other origin: " + bad + ")"}[bad == ""])
+	}
+	if n == 0 {
+		r.Shortfall(c, rule, rule+": no placement call with a chunkData parameter found in readChunkedData")
+	}
+}
+
+func init() {
+	registry["C06"].Meta.Rules["C06.11"] = "a chunk that could not be decoded fails, it is not made to fit: in readChunkedData the bytes handed to the placement step are, on every path, the buffer the file read filled or the result of ApplyFilters - never a buffer made afterwards (zero-padding to the nominal size defeats the placement step's length test, the only thing that turns a chunk still encoded by an unsupported optional filter into an error)"
+	registry["C06"].Rules = append(registry["C06"].Rules, func(c *Ctx, r *Result) { c06chunkOrigin(c, r, "C06.11") })
+}
